@@ -149,19 +149,44 @@ func C18(c *hx.Ctx) {
 		}
 		w.Write([]byte("dictionary byte probe"))
 		w.Close()
-		r := ref.DecodeXZ(buf.Bytes(), ref.XZOpts{})
-		if r.Err != nil || len(r.Streams) != 1 || len(r.Streams[0].Blocks) != 1 {
-			c.Violation(map[string]string{"fn": "xz.Writer", "dictcap": fmt.Sprint(dc)}, fmt.Sprintf("output not parseable: %v", r.Err), map[string]any{"dictcap": dc})
-			continue
+		probes := [][]byte{buf.Bytes()}
+		// the declared size must not depend on anything but DictCap: other block sizes (several
+		// blocks, each header judged), look-ahead sizes, properties, checks, match finders
+		for vi, v := range []xz.WriterConfig{
+			{DictCap: dc, BlockSize: 4096}, {DictCap: dc, BlockSize: 100000, CheckSum: xz.CRC32},
+			{DictCap: dc, BlockSize: 7, BufSize: 273, NoCheckSum: true}, {DictCap: dc, BufSize: 65536, Matcher: lzma.BinaryTree, Properties: &lzma.Properties{LC: 0, LP: 2, PB: 1}},
+		} {
+			var b2 bytes.Buffer
+			w2, err := v.NewWriter(&b2)
+			if err != nil {
+				c.Violation(map[string]string{"fn": "NewWriter", "dictcap": fmt.Sprint(dc), "variant": fmt.Sprint(vi)}, "valid configuration rejected: "+err.Error(), map[string]any{"dictcap": dc, "variant": vi})
+				continue
+			}
+			w2.Write(MakeData("text", 30, int64(dc)))
+			w2.Close()
+			probes = append(probes, b2.Bytes())
 		}
-		code := r.Streams[0].Blocks[0].DictCode
 		want := 0
 		for size[want] < int64(dc) {
 			want++
 		}
-		fmt.Fprintf(&obs, `{"ev":"hdr","u":%d,"code":%d}`+"\n", (dc+2047)/2048, code)
-		if code != want {
-			c.Violation(map[string]string{"fn": "blockheader", "dictcap": fmt.Sprint(dc)}, fmt.Sprintf("block header dictionary byte %d for DictCap %d; spec Least = %d", code, dc, want), map[string]any{"dictcap": dc})
+		for pi, pb := range probes {
+			c.Count(1, 1)
+			r := ref.DecodeXZ(pb, ref.XZOpts{})
+			if r.Err != nil || len(r.Streams) != 1 || len(r.Streams[0].Blocks) < 1 {
+				c.Violation(map[string]string{"fn": "xz.Writer", "dictcap": fmt.Sprint(dc)}, fmt.Sprintf("output not parseable: %v", r.Err), map[string]any{"dictcap": dc, "variant": pi})
+				continue
+			}
+			for bi, blk := range r.Streams[0].Blocks {
+				code := blk.DictCode
+				if pi == 0 {
+					fmt.Fprintf(&obs, `{"ev":"hdr","u":%d,"code":%d}`+"\n", (dc+2047)/2048, code)
+				}
+				if code != want {
+					c.Violation(map[string]string{"fn": "blockheader", "dictcap": fmt.Sprint(dc), "variant": fmt.Sprint(pi)}, fmt.Sprintf("block header %d (configuration variant %d): dictionary byte %d for DictCap %d; spec Least = %d", bi, pi, code, dc, want), map[string]any{"dictcap": dc, "variant": pi})
+					break
+				}
+			}
 		}
 	}
 	// (C) observations validated by TLC against the declarative module
